@@ -5,6 +5,7 @@ record kinds): the rendered line is a line of its kind, 80 bytes long, and the r
 -/
 import IclModel.Lemmas.RoundTrip
 import IclModel.Lemmas.Builder
+import IclModel.Lemmas.WriterLink
 namespace Icl.C01
 open Icl Icl.C04
 
@@ -382,5 +383,76 @@ abbrev CanonCashLetter (m : Model) := CashLetterAll m (RecCanon m)
 theorem cashLetterOK_of_canon (m : Model) (e : Enc) (he : e.ebcdic = false) (hK : ∀ k, KindOK m k = true)
     (cl : CashLetter Vals) (h : CanonCashLetter m cl) : CashLetterOK m e (fun k v => lineOf m k (some v)) cl :=
   cashLetterOK_of_all m e _ (RecCanon m) (fun k v hc => recOK_ascii_all m e he k (hK k) v hc) cl h
+
+
+/-! ### every record the writer walk emits satisfies the per-record predicate of the containers -/
+
+def RecP (P : Kind → Vals → Prop) (r : Rec) : Prop := P r.1 r.2.1
+
+section
+variable (ln : Kind → Vals → Bytes) (P : Kind → Vals → Prop)
+
+theorem recP_map (k : Kind) (l : List Vals) (h : ∀ v ∈ l, P k v) : ∀ r ∈ l.map (mkRec ln k), RecP P r := by
+  intro r hr
+  obtain ⟨v, hv, rfl⟩ := List.mem_map.1 hr
+  exact h v hv
+
+theorem recP_append {a b : List Rec} (ha : ∀ r ∈ a, RecP P r) (hb : ∀ r ∈ b, RecP P r) : ∀ r ∈ a ++ b, RecP P r := by
+  intro r hr
+  rcases List.mem_append.1 hr with h | h
+  · exact ha r h
+  · exact hb r h
+
+theorem recP_flatMap {α : Type} (l : List α) (f : α → List Rec) (h : ∀ x ∈ l, ∀ r ∈ f x, RecP P r) :
+    ∀ r ∈ l.flatMap f, RecP P r := by
+  intro r hr
+  obtain ⟨x, hx, hrx⟩ := List.mem_flatMap.1 hr
+  exact h x hx r hrx
+
+theorem recP_views (it : Item Vals) (i : Nat) (h1 : ∀ v ∈ it.ivDetail, P .ivDetail v) (h2 : ∀ v ∈ it.ivData, P .ivData v)
+    (h3 : ∀ v ∈ it.ivAnalysis, P .ivAnalysis v) : ∀ r ∈ viewRecs ln it i, RecP P r := by
+  unfold viewRecs
+  exact recP_append P (recP_append P (recP_map ln P _ _ (fun v hv => h1 v (mem_optVals _ _ _ hv)))
+    (recP_map ln P _ _ (fun v hv => h2 v (mem_optVals _ _ _ hv)))) (recP_map ln P _ _ (fun v hv => h3 v (mem_optVals _ _ _ hv)))
+
+theorem recP_check (it : Item Vals) (h : ItemAll P true it) : ∀ r ∈ checkRecs ln it, RecP P r := by
+  obtain ⟨h1, h2, h3, h4, _, h6, h7, h8⟩ := h
+  unfold checkRecs
+  refine recP_append P (recP_append P (recP_append P (recP_append P ?_ (recP_map ln P _ _ h2)) (recP_map ln P _ _ h3))
+    (recP_map ln P _ _ h4)) (recP_flatMap P _ _ (fun i _ => recP_views ln P it i h6 h7 h8))
+  intro r hr
+  simp only [List.mem_singleton] at hr
+  subst hr; exact h1
+
+theorem recP_return (it : Item Vals) (h : ItemAll P false it) : ∀ r ∈ returnRecs ln it, RecP P r := by
+  obtain ⟨h1, h2, h3, h4, h5, h6, h7, h8⟩ := h
+  unfold returnRecs
+  refine recP_append P (recP_append P (recP_append P (recP_append P (recP_append P ?_ (recP_map ln P _ _ h2)) (recP_map ln P _ _ h3))
+    (recP_map ln P _ _ h4)) (recP_map ln P _ _ h5)) (recP_flatMap P _ _ (fun i _ => recP_views ln P it i h6 h7 h8))
+  intro r hr
+  simp only [List.mem_singleton] at hr
+  subst hr; exact h1
+
+theorem recP_bundle (b : Bundle Vals) (h : BundleAll P b) : ∀ r ∈ bundleRecs ln b, RecP P r := by
+  obtain ⟨x, hx, hpx⟩ := h.hdr
+  obtain ⟨y, hy, hpy⟩ := h.ctl
+  unfold bundleRecs
+  refine recP_append P (recP_append P (recP_append P (recP_map ln P _ _ ?_)
+    (recP_flatMap P _ _ (fun it hit => recP_check ln P it (h.checks it hit).1)))
+    (recP_flatMap P _ _ (fun it hit => recP_return ln P it (h.returns it hit).1))) (recP_map ln P _ _ ?_)
+  · intro v hv; rw [hx] at hv; simp at hv; subst hv; exact hpx
+  · intro v hv; rw [hy] at hv; simp at hv; subst hv; exact hpy
+
+theorem recP_cashLetter (m : Model) (cl : CashLetter Vals) (h : CashLetterAll m P cl) : ∀ r ∈ clRecs ln cl, RecP P r := by
+  obtain ⟨x, hx, hpx⟩ := h.hdr
+  obtain ⟨y, hy, hpy⟩ := h.ctl
+  unfold clRecs
+  refine recP_append P (recP_append P (recP_append P (recP_append P (recP_append P (recP_map ln P _ _ ?_)
+    (recP_map ln P _ _ h.creditItems)) (recP_map ln P _ _ h.credits))
+    (recP_flatMap P _ _ (fun b hb => recP_bundle ln P b (h.bundles b hb)))) (recP_map ln P _ _ h.rns)) (recP_map ln P _ _ ?_)
+  · intro v hv; rw [hx] at hv; simp at hv; subst hv; exact hpx
+  · intro v hv; rw [hy] at hv; simp at hv; subst hv; exact hpy
+
+end
 
 end Icl.C01
